@@ -25,7 +25,7 @@ pub fn plan(p: &EpParams) -> Plan {
     Plan {
         episodes: n,
         exhaustive: false,
-        rule: "seeded episodes: 1-4 streams (request side open/closed), 0-3 blocked pulls, 0-10 in-flight calls, delete (optionally racing a publish); tokio select! RNG and hook yields seeded per episode. Non-trivial: the delete returned OK while >=1 stream was open or >=1 pull was blocked. Distinct: (streams open/closed counts, blocked pulls, in-flight kinds, racing publish, observed end codes).".into(),
+        rule: "seeded episodes: 1-4 streams (request side open/closed), 0-3 blocked pulls, 0-10 in-flight calls, in a quarter of the episodes the topic is deleted first (detached subscription), then DeleteSubscription (optionally racing a publish); tokio select! RNG and hook yields seeded per episode. Non-trivial: the delete returned OK while >=1 stream was open or >=1 pull was blocked. Distinct: (streams open/closed counts, blocked pulls, in-flight kinds, racing publish, observed end codes).".into(),
     }
 }
 
@@ -85,6 +85,14 @@ async fn episode(p: &EpParams) -> EpReport {
         let cx = Cx::new(&w, 20 + i as u32);
         let s2 = s.clone();
         blocked.push(tokio::spawn(async move { cx.pull_op(&s2, 1 + (i as i32), false).await }));
+    }
+    // In some episodes the topic is deleted first: the subscription lives on detached
+    // (`_deleted_topic_`), and deleting it must release its consumers all the same.
+    let topic_deleted_first = rng.chance(1, 4);
+    if topic_deleted_first {
+        w.settle().await;
+        c0.delete_topic(&t).await.ok();
+        rep.inc("topic_deleted_before_subscription");
     }
     w.settle().await;
     let blocked_before: Vec<bool> = blocked.iter().map(|b| !b.is_finished()).collect();
@@ -234,7 +242,8 @@ async fn episode(p: &EpParams) -> EpReport {
     end_codes.dedup();
     kinds.sort();
     rep.key = format!(
-        "open={} closed={} blocked={} inflight={:?} race={} msgs={} ends={:?}",
+        "detached={} open={} closed={} blocked={} inflight={:?} race={} msgs={} ends={:?}",
+        topic_deleted_first,
         open_side.iter().filter(|b| **b).count(),
         open_side.iter().filter(|b| !**b).count(),
         blocked_before.iter().filter(|b| **b).count(),
